@@ -658,11 +658,30 @@ def check_line_delimiters(ctx, rep, rule=RULE + '.g'):
     if len(patterns) < 5:
         raise AnalysisError('fewer than 5 label regular expressions found')
     n = 0
+    methods = [f]
+    if f.cls is not None:
+        # the other methods of the reader that see raw text (parse: the loop over the lines)
+        methods += [m for k, m in sorted(f.cls.methods.items()) if m is not f and any(p in ('text', 'line', 'lines') for p in m.params)]
+    for f in methods:
+        n += _line_delimiters_in(ctx, rep, f, patterns, rule)
+    return n
+
+
+def _line_delimiters_in(ctx, rep, f, patterns, rule):
+    n = 0
     derived = {p for p in f.params if p != 'self'}
     for _ in range(3):
         for s in walk_no_nested(f.node):
             if isinstance(s, ast.Assign) and len(s.targets) == 1 and isinstance(s.targets[0], ast.Name) and names_in(s.value) & derived:
                 derived.add(s.targets[0].id)
+            if isinstance(s, ast.Assign) and len(s.targets) == 1 and isinstance(s.targets[0], ast.Tuple) and names_in(s.value) & derived:
+                derived |= {x.id for x in ast.walk(s.targets[0]) if isinstance(x, ast.Name)}
+            if isinstance(s, ast.For) and names_in(s.iter) & derived:
+                derived |= {x.id for x in ast.walk(s.target) if isinstance(x, ast.Name)}
+            if isinstance(s, (ast.ListComp, ast.GeneratorExp, ast.SetComp, ast.DictComp)):
+                for g0 in s.generators:
+                    if names_in(g0.iter) & derived:
+                        derived |= {x.id for x in ast.walk(g0.target) if isinstance(x, ast.Name)}
     for c in walk_no_nested(f.node):
         if not (isinstance(c, ast.Call) and isinstance(c.func, ast.Attribute)):
             continue
@@ -691,7 +710,24 @@ def check_line_delimiters(ctx, rep, rule=RULE + '.g'):
             recv = resolve_alias(f, c.func.value) if isinstance(c.func.value, ast.Name) else c.func.value
             first_word = isinstance(recv, ast.Subscript) and isinstance(recv.slice, ast.Constant) and recv.slice.value == 0
             if not first_word:
-                rep.undecided(rule, f, c, 'comment test not on the first word')
+                if not (names_in(c.func.value) & derived):
+                    n -= 1
+                    continue
+                # the test is applied to a word that need not be the first of its line: a label or symbol that begins with
+                # the marker is then taken for the start of a comment
+                bad = None
+                for where, p in sorted(patterns.items()):
+                    try:
+                        ok, wit = relang.included(p, '[^{}].*|'.format(re.escape(d[0])))
+                    except Exception:
+                        continue
+                    if not ok:
+                        bad = (where, p, wit)
+                        break
+                if bad:
+                    rep.violates(rule, f, c, "the comment test `{}` is applied to words inside a line, but a label or symbol may begin with '{}': {} ({}) admits '{}' -- such a word and the rest of its line are dropped, so text written by the printers is not read back".format(u(c), d, bad[1], bad[0], bad[2]))
+                else:
+                    rep.holds(rule, f, c, "no state name, symbol or label begins with '{}'".format(d))
                 continue
             bad = None
             for where, p in sorted(patterns.items()):
@@ -704,4 +740,45 @@ def check_line_delimiters(ctx, rep, rule=RULE + '.g'):
                 rep.violates(rule, f, c, "a state name may start with the comment character '{}' ({} admits '{}')".format(d, bad[1], bad[2]))
             else:
                 rep.holds(rule, f, c, "the comment test looks at the first word only, and no state name starts with '{}'".format(d))
+    return n
+
+
+def check_word_list_tokens(ctx, rep, f, rule=RULE + '.tokens'):
+    """a list of words is cut at white space by ``str.split()`` WITHOUT an argument -- the only splitter that yields no
+    token for an empty (or blank) text.  ``str.split(sep)`` and ``re.split`` yield one empty token for the empty text;
+    in a word list the empty token is the empty word, so the empty list would be read as {epsilon}.  Such a splitter must
+    be followed by a filter of the empty tokens."""
+    n = 0
+    for c in walk_no_nested(f.node):
+        if not isinstance(c, ast.Call):
+            continue
+        is_re = isinstance(c.func, ast.Attribute) and c.func.attr == 'split' and u(c.func.value) == 're'
+        is_str = isinstance(c.func, ast.Attribute) and c.func.attr in ('split', 'rsplit') and not is_re
+        if not (is_re or is_str):
+            continue
+        n += 1
+        if is_str and not c.args and not c.keywords:
+            rep.holds(rule, f, c, 'the words are cut by split() without an argument: an empty text has no tokens')
+            continue
+        # filtered?  filter(None, <split>) / [w for w in <split> if w] / if w.strip()
+        filtered = False
+        for p in ast.walk(f.node):
+            if isinstance(p, ast.Call) and isinstance(p.func, ast.Name) and p.func.id == 'filter' and len(p.args) == 2 and any(x is c for x in ast.walk(p.args[1])):
+                filtered = True
+            if isinstance(p, (ast.ListComp, ast.SetComp, ast.GeneratorExp)):
+                for g in p.generators:
+                    if any(x is c for x in ast.walk(g.iter)) and isinstance(g.target, ast.Name):
+                        for cond in g.ifs:
+                            t = cond
+                            if isinstance(t, ast.Name) and t.id == g.target.id:
+                                filtered = True
+                            if isinstance(t, ast.Call) and isinstance(t.func, ast.Attribute) and t.func.attr == 'strip' and u(t.func.value) == g.target.id:
+                                filtered = True
+                            if isinstance(t, ast.Compare) and len(t.ops) == 1 and isinstance(t.ops[0], ast.NotEq) and u(t.left) == g.target.id and u(t.comparators[0]) in ("''", '""'):
+                                filtered = True
+        if filtered:
+            rep.holds(rule, f, c, 'the empty tokens of {} are filtered out'.format(u(c.func)))
+        else:
+            rep.violates(rule, f, c, '`{}` yields one empty token for an empty text, and in a word list the empty token is the empty word: an empty list of words is read as {{epsilon}} '
+                         '(a checker then demands / accepts the empty word for the empty language)'.format(u(c)))
     return n
